@@ -24,12 +24,17 @@ def run(prog, rep, tier):
                   "configuration conditions correlated) that returns 'no stack' passes through an upstream pull unless no state-dependent "
                   "condition lies on it (no exhaustion latch, so sub-expression chains can be re-fed); R4: each origin created in build_exec/"
                   "build_pred/overload_instance feeds exactly one chain built on the same layout and is paired with that chain; "
-                  "R5: state accumulators (containers grown, counters used for numbering) are reset between two inputs.")
+                  "R5: state accumulators (containers grown, counters used for numbering) are reset between two inputs; "
+                  "Y2: the scanner fields that only matter inside %( ... %) (level, in_string) are set to their initial value whenever that start "
+                  "condition is entered or provably restored whenever it is left (typestate over the flex actions), so every splice of a format "
+                  "string is scanned independently of the previous one.")
     rep.not_decided = ("that the yielded multiset equals the documented meaning of each construct and the left-to-right order of results "
                        "(run-time values; needs execution).")
     apply(rep, "R1", "no exhaustion latch in next()", r_stream.r1(prog), 60)
     apply(rep, "R4", "origin/chain/layout pairing", r_stream.r4(prog), 13)
     apply(rep, "R5", "per-input accumulators reset on new input", r_stream.r5(prog), 3)
+    import r_lex
+    apply(rep, "Y2", "scanner fields local to a start condition are initialised when it is entered", r_lex.y2(prog), 2)
     if tier == "thorough" and not os.environ.get("VERIF_NO_MUTANTS"):
         import mutants
         mutants.run_mutants("C01", rep)
